@@ -258,6 +258,7 @@ func runC11(s *scn.Scenario, res *scn.Result) {
 	snapshotPhase1(res)
 	deadlocked := zzsim.Deadlock
 	aborts1 := zzsim.BudgetAborts
+	crash1, crashText := zzsim.CodePanics, zzsim.CodePanicText
 
 	// ---- phase 2: the same pipelines alone, sequentially, as one task. After
 	// phase 1 on purpose: lazily initialised shared state must first be met
@@ -293,6 +294,16 @@ func runC11(s *scn.Scenario, res *scn.Result) {
 	// ---- oracles
 	add := func(oracle, sig, detail string) {
 		res.Violations = append(res.Violations, scn.Violation{Oracle: oracle, Sig: sig, Detail: detail})
+	}
+	if crash1 > 0 {
+		// a panic escaped a goroutine that the code under test started itself:
+		// in a real process that ends the whole program, whatever the other
+		// pipelines were doing - unless the same work crashes the same way alone
+		if zzsim.CodePanics == crash1 {
+			add("O4-progress", "goroutine-crash", strconv.FormatInt(crash1, 10)+" goroutine(s) started by the library panicked during the concurrent run ("+short(crashText, 200)+"); none does when the same pipelines run alone")
+		} else {
+			res.Probes["library_goroutine_crash_also_when_alone"]++
+		}
 	}
 	if deadlocked {
 		if aborts1 > 0 {
